@@ -29,6 +29,19 @@ def check_can_write(chk) -> None:
     from sa import paths as PT
     from sa.defuse import Inliner
 
+    # the fit test evaluated on one table per class; the reading of its paths below is the fallback
+    evaluated = False
+    try:
+        from checks import c10e
+
+        evaluated = c10e.check_can_write_eval(chk)
+    except AnalysisError:
+        raise
+    except Exception as ex:
+        chk.ok("fit-test-eval", fi.where, f"evaluation of can_write_pdb failed internally ({type(ex).__name__}: {str(ex)[:60]}): the reading of its paths decides")
+    if evaluated:
+        _limits_vs_widths(chk, fi, c)
+        return
     # normalisation: a loop over a constant table of (item, predicate) rows is unrolled, predicates that are lambdas or
     # products of closure factories (`def f(limit): return lambda column: ...`) are beta-reduced at their application
     import copy as _copy
@@ -144,6 +157,10 @@ def check_can_write(chk) -> None:
             chk.ok("fit-test", fi.where, f"{len(cif)} mmCIF paths: False exactly when a needed column is missing or a limit is exceeded")
         pdbp = [(d, rv) for d, rv, st in results if fmt_of(d) == "PDB"]
         chk.expect(bool(pdbp) and all(rv is True for d, rv in pdbp), "fit-test", fi.where, "PDB-format tables fit", "a PDB-format table is not reported as fitting", K(fi, "returns-pdb"))
+    _limits_vs_widths(chk, fi, c)
+
+
+def _limits_vs_widths(chk, fi, c) -> None:
     # limits agree with the writer's widths
     lay = {}
     try:
@@ -215,6 +232,24 @@ def check_fit(chk) -> None:
     chk.note_function(fi)
     fm = FlowMap(fi.node)
     f = Folder(repo, M)
+    from checks import c10e
+
+    def _try(f, *a):
+        try:
+            return f(chk, fi, *a)
+        except AnalysisError:
+            raise
+        except Exception as ex:
+            chk.ok("fit-eval", fi.where, f"{f.__name__} failed internally ({type(ex).__name__}: {str(ex)[:60]}): the pinned-form rule decides")
+            return False
+
+    # fit_to_pdb interpreted as a whole on representative tables (pandas objects: sa/frame.py) and its refusals on small tables; the
+    # pinned-form versions of the rules decided there are only fallbacks and are not recorded
+    decided = _try(c10e.check_fit_eval) or set()
+    feas = bool(_try(c10e.check_feasibility_eval))  # which quantity meets which limit: evaluated; the pinned counting idiom is then not read
+    if feas:
+        decided = set(decided) | {"feasibility"}
+    real_chk, chk = chk, (_Skip(chk, decided) if decided else chk)
     # exceptions
     raises = [r for r in astq.walk_no_nested(fi.node) if isinstance(r, ast.Raise)]
     bad = [norm(r) for r in raises if not (isinstance(r.exc, ast.Call) and norm(r.exc.func) == "ValueError")]
@@ -229,25 +264,10 @@ def check_fit(chk) -> None:
     inplace = [c2 for c2 in ast.walk(fi.node) if isinstance(c2, ast.Call) and isinstance(c2.func, ast.Attribute) and norm(c2.func.value) == "df" and any(k.arg == "inplace" for k in c2.keywords)]
     chk.expect(not stores_to_df and not inplace, "input-untouched", fi.where, "the input frame is never written", "fit_to_pdb writes into its argument", K(fi, "input-write"))
     # column selection per format
-    from checks import c10e
-
-    def _try(f, *a):
-        try:
-            return f(chk, fi, *a)
-        except AnalysisError:
-            raise
-        except Exception as ex:
-            chk.ok("fit-eval", fi.where, f"{f.__name__} failed internally ({type(ex).__name__}: {str(ex)[:60]}): the pinned-form rule decides")
-            return False
+    chk = real_chk
 
     if not _try(c10e.check_column_selection_eval):
         _column_selection_form(chk, fi)
-    # fit_to_pdb interpreted as a whole on representative tables (pandas objects: sa/frame.py); the pinned-form versions of the rules
-    # it decides are then only fallbacks and are not recorded
-    decided = _try(c10e.check_fit_eval) or set()
-    feas = bool(_try(c10e.check_feasibility_eval))  # which quantity meets which limit: evaluated; the pinned counting idiom is then not read
-    if feas:
-        decided = set(decided) | {"feasibility"}
     _check_fit_rest(_Skip(chk, decided) if decided else chk, fi, fm, f, c, _try, feasibility_evaluated=feas)
 
 
@@ -363,10 +383,13 @@ def _check_fit_rest(chk, fi, fm, f, c, _try, feasibility_evaluated: bool = False
     consts = {nm: f.try_fold(astq.first_assign(fi.node, nm)) for nm in ("max_pdb_serial", "max_pdb_residue") if astq.first_assign(fi.node, nm) is not None}
     alpha = f.try_fold(astq.first_assign(fi.node, "available_chain_ids")) if astq.first_assign(fi.node, "available_chain_ids") is not None else None
     ok = consts == {"max_pdb_serial": c["max_serial"], "max_pdb_residue": c["max_resseq"]}
-    chk.expect(ok, "limits", fi.where, "limits fold to 99999 / 9999", f"fit_to_pdb limits fold to {consts}", K(fi, "limits"), expected={"max_pdb_serial": c["max_serial"], "max_pdb_residue": c["max_resseq"]}, found=consts)
+    # when the refusals were evaluated the limits are the values they compare with (recorded there); the named locals are only one
+    # way of writing them (module constants, literals in place are others)
+    (chk.expect if not feasibility_evaluated else (lambda *a, **k: None))(ok, "limits", fi.where, "limits fold to 99999 / 9999", f"fit_to_pdb limits fold to {consts}", K(fi, "limits"), expected={"max_pdb_serial": c["max_serial"], "max_pdb_residue": c["max_resseq"]}, found=consts)
     ok = isinstance(alpha, list) and len(alpha) == c["max_chains"] and len(set(alpha)) == len(alpha) and all(isinstance(x, str) and len(x) == 1 for x in alpha)
     mc = astq.first_assign(fi.node, "max_pdb_chains")
-    chk.expect(ok and mc is not None and norm(mc) == "len(available_chain_ids)", "chain-alphabet", fi.where, "62 distinct one-character chain ids; the chain limit is the alphabet size", "the chain alphabet is not 62 distinct single characters with max_pdb_chains = its length", K(fi, "alphabet"), found=len(alpha) if isinstance(alpha, list) else None)
+    alphabet_evaluated = "chain-alphabet" in getattr(chk, "_decided", ())
+    (chk.expect if not alphabet_evaluated else (lambda *a, **k: None))(ok and mc is not None and norm(mc) == "len(available_chain_ids)", "chain-alphabet", fi.where, "62 distinct one-character chain ids; the chain limit is the alphabet size", "the chain alphabet is not 62 distinct single characters with max_pdb_chains = its length", K(fi, "alphabet"), found=len(alpha) if isinstance(alpha, list) else None)
     from sa.defuse import Inliner
 
     inl = Inliner(fi.node)
@@ -522,7 +545,11 @@ def _check_fit_rest2(chk, fi, fm, f, c, _try, inl) -> None:
         else:
             chk.ok("serial-renumber", fi.site(sl[0]), f"{npaths} paths: serials run 1,2,.. in row order, leaving one number for the TER of every chain change")
         lim = [r for r in ast.walk(sl[0]) if isinstance(r, ast.Raise)]
-        chk.expect(bool(lim) and len(srt) == 1 and srt[0].lineno < sl[0].lineno, "serial-renumber-form", fi.where, "rows are renumbered in original row order with a limit safeguard", "serial renumbering lost its row-order sort or limit safeguard", K(fi, "serial-form"))
+        # since the fix of F24 the rows are numbered in the order they have: a sort by index labels before the loop permutes tables
+        # whose labels are not increasing (decided by evaluation as `row-order`; this is the reading of the form when that is impossible)
+        if srt:
+            chk.violation("row-order", fi.site(srt[0]), f"`{norm(srt[0])[:50]}` before the serial renumbering sorts the rows by their index labels: a table whose labels are not increasing comes back with its atoms permuted", "parser_v2:fit_to_pdb:sort_index")
+        chk.expect(bool(lim), "serial-renumber-form", fi.where, "rows are renumbered in the order they have, with a limit safeguard", "serial renumbering lost its limit safeguard", K(fi, "serial-form"))
         upd = [s2 for s2 in sl[0].body if norm(s2) in ("last_chain_id_for_serial = current_chain_id", "last_chain_id_for_serial = row[chain_col]")]
         chk.expect(len(upd) == 1 and sl[0].body[-1] is upd[0], "serial-renumber-form", fi.site(sl[0]), "the chain of the row just numbered is remembered", "the last chain id is not updated at the end of every round", K(fi, "serial-last"))
     # frame condition on column stores
@@ -678,7 +705,7 @@ def run(chk) -> None:
     )
     chk.trusted = ["CPython ast", "pandas semantics (groupby order, map, drop_duplicates, dtype coercion)"]
     chk.assumptions = ["everything pandas does at run time is outside the decision: the behavioural claim as a whole is not decided"]
-    chk.robust |= {"fit-test", "feasibility", "chain-alphabet", "residue-map-skip", "serial-renumber", "frame-condition", "input-untouched", "limits", "limits-vs-widths", "only-valueerror", "rename-injective", "rename-coverage", "dtype-typestate"}
+    chk.robust |= {"fit-test", "feasibility", "chain-alphabet", "residue-map-skip", "serial-renumber", "frame-condition", "input-untouched", "limits", "limits-vs-widths", "only-valueerror", "rename-injective", "rename-coverage", "dtype-typestate", "row-order"}
     check_can_write(chk)
     check_fit(chk)
     for rule, n in (("fit-test", 4), ("feasibility", 1), ("residue-map", 2), ("chain-map", 2), ("rename-injective", 3), ("rename-coverage", 1), ("dtype-typestate", 3), ("frame-condition", 2)):
